@@ -361,7 +361,22 @@ RULE = ('systems of 1-16 atoms (1-13 atom types) in orthogonal/triclinic cells (
         'names; columns in any requested order; ids and molecule ids beyond 2^31; C formats with width, flags + - blank 0 #, '
         '%E, no precision; search only: %g, values -0.0 / denormal / 1e300 / nan / inf; POSCAR with more symbols than '
         'types in use, comment / mode line with a line break (must be refused); distinct = distinct canonical request '
-        'line; non-trivial = the real writer produced a file')
+        'line; non-trivial = the real writer produced a file. Fourth round (counts and thresholds): every writer on systems '
+        'of 2^k-1, 2^k, 2^k+1 atoms (k = 7..13), 1000, 1001, 2000, 4999, 5000, 10001 atoms (search: all four writers each; '
+        'correspondence: one writer each, in turn), one system of 65537 atoms and one each of about 70 000 and about 140 000 '
+        'atoms (sizes just below / at / above 65536 and 131072 among them) through every writer per run: counts, words per '
+        'line and ids on EVERY row, numbers on a sample of rows (first / last three, every row within two of a power of '
+        'two or of a multiple of 1000 / 4096 / 10000 / 65536, 200 drawn rows); sized systems on an exact grid or with '
+        'generic coordinates (always above 100 000 atoms), outside atoms starting at an index (0, half, a power of two, '
+        'the last atom); atoms 127 ... 100 000 cells away along periodic directions; the time step held as python int / '
+        'whole-number float / numpy integers of every width, signed or not / numpy floats / 0-d arrays / None / not at all; '
+        'a matrix of every unit-bearing column kind (velocity, force, charge, mass, radius, diameter, mu, mu_mag, '
+        'ang_velocity, ang_momentum, torque; tables also density, volume) x 8 unit styles x 3 working-unit configurations '
+        'under %e formats; integer arrays (atype, ids, molecule ids) of int8 ... uint64; flags as 0/1 and numpy bools, the '
+        'POSCAR factor / natypes as numpy scalars, symbols as tuple; type numbers beyond 8 / 16 bits; per-atom vectors / '
+        'tensors with two-digit component numbers; ids congruent modulo 2^8 / 2^16 / 2^32; every dump through the returned '
+        'string is made twice on the same object (same file) with a snapshot of the system around it (unchanged, the '
+        'documented wrap of a data file apart)')
 ASSUMPTIONS = [
     "CPython '%.Nf' / '%.Ne' of a double is the correctly rounded (half-even on ties) decimal of its exact value "
     '(checked against the model on every run, incl. ties and subnormals); a width and the flags + - blank 0 # and %E '
@@ -376,6 +391,13 @@ ASSUMPTIONS = [
     'unit values (angstrom, ps, g/mol, ...) the MODEL is run with come from atomman.unitconvert (property C09); the oracle '
     'of the search evaluates the LAMMPS units page with numericalunits\' constants on its own (agreement with '
     'atomman.unitconvert to 1e-14 under every working-unit configuration used)',
+    'units the LAMMPS page does not list are taken as composed: angular momentum = mass x velocity x distance, angular '
+    'velocity = 1 / time, volume = distance^3, torque (per-atom tq columns) = force x distance; the statcoulomb is C / '
+    '(10 c) and the Debye 1e-21 / c C m with c = 299792458; the "atomic time unit" of the electron style\'s velocity is '
+    'hbar / Hartree (the page\'s bracketed 1.03275e-15 s is sqrt(amu Bohr^2 / Hartree): candidate electron-velocity-atu, '
+    'docs/C07.md, not checked)',
+    'a system without a time step (no attribute, or None) is written as step 0 (the convention of the writer; LAMMPS\' '
+    'first step)',
     'a PotentialLAMMPS record built offline by potentials.build_lammps_potential carries units / atom_style / symbols like '
     'a downloaded one',
 ]
@@ -394,7 +416,9 @@ MANIFEST = {
             'scale applies to lattice and Cartesian rows, the command snippet names the units/atom_style/boundary used, '
             'generated atom-style/dump/unit tables equal the hand-encoded LAMMPS tables; every column list (hybrids of any '
             'length) names a property once and the hybrid composition equals the regenerated real hybrid lists; scaled dump '
-            'columns unscale to the positions. Tie: text equality atomman-vs-model '
+            'columns unscale to the positions; derived units (angular momentum, angular velocity, volume) are composed of '
+            'the style\'s own entries; the TIMESTEP item is the whole number the system holds whatever numeric type carries '
+            'it. Tie: text equality atomman-vs-model '
             'on every case (exact on the dyadic grid), Lean parsers applied to the real output and compared with the system; '
             'failing-input search with an independent Python parser.',
     'note': 'Trusted: Lean kernel + propext/Classical.choice/Quot.sound; the table extractor (exec of the pure prop_info '
